@@ -119,6 +119,7 @@ type Str struct {
 	atom   *sym.Term
 	origin string // input name for views created by nd.*
 	tight  bool
+	parts  []*Str // for concatenations: the operands in order (used for segment-aligned equality)
 }
 
 func concStr(s string) *Str { return &Str{kind: sConc, conc: s, max: len(s)} }
